@@ -258,7 +258,10 @@ def case_roundtrip(mon, frame, direction, lon, lat, par):
                  err if near_pole(lat, b1) > 0.01 else 0.0, case)
         mon.check("matches-rotation." + frame, err <= TOL,
                   lambda: dict(case, result=[l1, b1], error_deg=err),
-                  key_conv(f, err, (lat, b1)))
+                  # the asin() conditioning concerns the latitude that is
+                  # computed, not the one given: with an input near a pole of
+                  # its own frame the unchanged library is good to 5e-14 deg
+                  key_conv(f, err, (b1,)))
     try:
         l2, b2, ok2 = conv(g, l1, b1, par)
     except Exception as ex:
@@ -297,8 +300,7 @@ def case_isometry(mon, name, lon1, lat1, lon2, lat2, par):
     mon.cls("isometry-pair", ("iso", name, lon1, lat1, lon2, lat2, par))
     mon.check("isometry", abs(before - after) <= TOL,
               lambda: dict(case, before=before, after=after),
-              key_conv(name, abs(before - after), (lat1, lat2, b1, b2),
-                       factor=2.0))
+              key_conv(name, abs(before - after), (b1, b2), factor=2.0))
 
 
 def case_separation(mon, lon1, lat1, lon2, lat2):
